@@ -9,6 +9,7 @@ import WireV.Value
 import WireV.Show
 import WireV.Cmd
 import WireV.Generated.Tables
+import WireV.Rename
 /-! # WireV.Driver — line protocol of the unit tier (one request per line, one reply per line) -/
 namespace WireV
 
@@ -337,6 +338,25 @@ def runFields (ws : List String) : String :=
     | .error .tooMany => "err toomany"
   | _ => "bad-request"
 
+/-- `rename nfs =name… nocc (=name obj|- flags)…`; flags: `r` renamable, `s` silent + renamable, `n` neither -/
+def runRename (ws : List String) : String :=
+  match ws with
+  | nfs :: rest =>
+    let nf := nfs.toNat!
+    let fs := (rest.take nf).map unEq
+    match rest.drop nf with
+    | _nocc :: otoks =>
+      let rec mk : List String → List Occ
+        | a :: b :: c :: t =>
+          { name := unEq a, obj := if b == "-" then none else some b.toNat!, renamable := c == "r" || c == "s", silent := c == "s" } :: mk t
+        | _ => []
+      let occs := mk otoks
+      match renameOccs (fs.length + 2 * occs.length + goKeywords.length + 2) fs occs with
+      | some ns => joinWith " " ("ok" :: ns.map (fun n => "=" ++ n))
+      | none => "fuel"
+    | _ => "bad-request"
+  | _ => "bad-request"
+
 def runPath (ws : List String) : String :=
   match ws with
   | ["unvendor", p] => "=" ++ unvendor (unEq p)
@@ -419,6 +439,7 @@ def handleLine (line : String) : String :=
   | "value" :: rest => runValue rest
   | "path" :: rest => runPath rest
   | "fields" :: rest => runFields rest
+  | "rename" :: rest => runRename rest
   | "namefile" :: rest => runNameFile rest
   | "disamb" :: rest => runNames "disamb" rest
   | "export" :: rest => runNames "export" rest
